@@ -7,6 +7,7 @@ import (
 	"go/token"
 	"os"
 	"path/filepath"
+	"regexp"
 	"sort"
 	"strconv"
 	"strings"
@@ -1772,6 +1773,25 @@ func nsLoop(r *ast.RangeStmt) []string {
 	return append([]string{nsRangeHeader(r)}, nsStmts(r.Body.List)...)
 }
 
+var nsVarTok = regexp.MustCompile(`\bv[0-9]+\b`)
+
+// nsLocalNumbering renumbers the canonical variables of one extracted fragment in order of first appearance
+// (w0, w1, …), so that the fragment reads the same wherever it stands in its function (two independent loops may
+// be written in either order).
+func nsLocalNumbering(lines []string) []string {
+	m := map[string]string{}
+	out := make([]string, len(lines))
+	for i, l := range lines {
+		out[i] = nsVarTok.ReplaceAllStringFunc(l, func(v string) string {
+			if _, ok := m[v]; !ok {
+				m[v] = fmt.Sprintf("w%d", len(m))
+			}
+			return m[v]
+		})
+	}
+	return out
+}
+
 // nsSingleAssign: the loop body is one plain assignment (no if / continue / anything else).
 func nsSingleAssign(r *ast.RangeStmt) bool {
 	if len(r.Body.List) != 1 {
@@ -2250,10 +2270,10 @@ func nsDelegate(o *nsOut, f *ast.File) {
 	o.section("delegate.go LocalState / MergeRemoteState / NotifyMsg")
 	fd := nsFn(f, "delegate", "LocalState")
 	r := nsRange(fd, "recv.serf.members", nsIs("recv.serf.members"))
-	o.list("localStateStatusLoop", "LocalState: loop over the member map (header, body)", nsLoop(r))
+	o.list("localStateStatusLoop", "LocalState: loop over the member map (header, body)", nsLocalNumbering(nsLoop(r)))
 	o.boolean("localStateStatusLoopUnconditional", "its body is a single assignment: every member is reported", nsSingleAssign(r))
 	r = nsRange(fd, "recv.serf.leftMembers", nsIs("recv.serf.leftMembers"))
-	o.list("localStateLeftLoop", "LocalState: loop over the left list (header, body)", nsLoop(r))
+	o.list("localStateLeftLoop", "LocalState: loop over the left list (header, body)", nsLocalNumbering(nsLoop(r)))
 	o.boolean("localStateLeftLoopUnconditional", "its body is a single assignment: every left entry is reported", nsSingleAssign(r))
 
 	fd = nsFn(f, "delegate", "MergeRemoteState")
